@@ -28,7 +28,7 @@ const verifChmodBits = fs.ModePerm | fs.ModeSetuid | fs.ModeSetgid | fs.ModeStic
 // directories); owner/group default root; mtime = explicit, else package
 // mtime, else source mtime; the size is the source's size.
 func Verif_C01_A_Defaults() {
-	typ := c05types[v.NondetChoice("type", len(c05types))]
+	typ := verifC05types[v.NondetChoice("type", len(verifC05types))]
 	hasInfo := v.NondetBool("hasInfo")
 	mode := fs.FileMode(v.NondetU32("mode"))
 	umask := fs.FileMode(v.NondetU32("umask"))
